@@ -10,6 +10,7 @@ package scentarget
 //   gkillmid send the response headers, THEN close the TCP connection (the stream ends in the middle)
 //   gempty   status OK with an EMPTY reply message (no field set)
 //   ggarbage status OK with a message whose bytes are no HelloResponse (cannot be decoded)
+//   w*       (a second service, wkt.WktService, see grpcwkt.go) status OK with a reply of a protobuf well-known type
 
 import (
 	"context"
@@ -87,6 +88,7 @@ func NewGrpcTarget() *GrpcTarget {
 	t := &GrpcTarget{ln: &trackListener{Listener: ln, conns: map[string]net.Conn{}}, Hold: 300 * time.Millisecond}
 	t.srv = grpc.NewServer(grpc.ForceServerCodec(garbleCodec{encoding.GetCodec("proto")}))
 	server.RegisterTargetServiceServer(t.srv, t)
+	t.registerWkt() // wkt.WktService: OK replies whose type is a protobuf well-known type (grpcwkt.go)
 	reflection.Register(t.srv)
 	go t.srv.Serve(t.ln)
 	return t
